@@ -55,20 +55,24 @@ Definition add_group (g : N) (gs : list N) : list N := if mem_n g gs then gs els
     unknown SegID: insertFull;  known SegID and the new last-hop version is not
     newer: nothing at all happens (neither segment nor group rows change);
     otherwise updateExisting: the segment is replaced and the group row is
-    inserted (PRIMARY KEY ... ON CONFLICT IGNORE). *)
-Fixpoint put1 (st : store) (g : N) (sg : segm) : store :=
+    inserted (PRIMARY KEY ... ON CONFLICT IGNORE).
+
+    [strict = true] is the implementation.  [strict = false] is the store the
+    property presumes: the segment row is kept as well, but the group is
+    recorded; it only serves to delimit the known defect class (below). *)
+Fixpoint put1 (strict : bool) (st : store) (g : N) (sg : segm) : store :=
   match st with
   | [] => [(s_id sg, (s_ver sg, [g]))]
   | (k, (v, gs)) :: t =>
     if k =? s_id sg then
-      if (s_ver sg <=? v)%Z then (k, (v, gs)) :: t
+      if (s_ver sg <=? v)%Z then (k, (v, if strict then gs else add_group g gs)) :: t
       else (k, (s_ver sg, add_group g gs)) :: t
-    else (k, (v, gs)) :: put1 t g sg
+    else (k, (v, gs)) :: put1 strict t g sg
   end.
 
 (** [Storer.Put]: one insert per segment, in order. *)
-Definition put (st : store) (g : N) (segs : list segm) : store :=
-  fold_left (fun st sg => put1 st g sg) segs st.
+Definition put (strict : bool) (st : store) (g : N) (segs : list segm) : store :=
+  fold_left (fun st sg => put1 strict st g sg) segs st.
 
 (** EndsAt clause of [buildQuery]: AS 0 is an ISD wildcard. *)
 Definition ends_at (dst e : ia) : bool :=
@@ -76,6 +80,7 @@ Definition ends_at (dst e : ia) : bool :=
 
 Section WithEnds.
 Variable end_of : N -> ia.      (* last AS of the segment with this id *)
+Variable strict : bool.         (* true: the implementation's store, see [put1] *)
 
 (** [Storer.Get]: rows whose end matches and that carry one of the group ids. *)
 Definition get (dst : ia) (gids : list N) (st : store) : list (N * Z) :=
@@ -100,7 +105,7 @@ Definition register (cfg : config) (r : registration) (st : store) : reg_res * s
     else if negb (mem_ia (c_local cfg) (g_registries g)) then (RErr RNotRegistry, st)
     else if negb (forallb is_down (r_segs r)) then (RErr RWrongType, st)
     else if negb (r_verdict r) then (RErr RVerify, st)
-    else (ROk, put st (r_gid r) (r_segs r))
+    else (ROk, put strict st (r_gid r) (r_segs r))
   end.
 
 (** ---------------------------------------------------------------- AuthoritativeServer.Segments *)
@@ -248,10 +253,65 @@ Definition dropped (st : store) (g : N) (sg : segm) : bool :=
 Fixpoint known_puts (st : store) (ps : list (N * segm)) : bool :=
   match ps with
   | [] => false
-  | p :: t => dropped st (fst p) (snd p) || known_puts (put1 st (fst p) (snd p)) t
+  | p :: t => dropped st (fst p) (snd p) || known_puts (put1 true st (fst p) (snd p)) t
   end.
 
 Definition known (cfg : config) (ops : list op) : bool := known_puts [] (puts_of cfg ops).
+
+(** The narrow class used for tagging: histories in which such an ignored
+    registration is visible in an answer, i.e. the implementation's store and the
+    store the property presumes produce different observations. *)
+Definition pair_exact_eqb (a b : N * Z) : bool := (fst a =? fst b) && (snd a =? snd b)%Z.
+Definition obs_exact_eqb (a b : obs) : bool :=
+  match a, b with
+  | ObsReg x, ObsReg y => x =? y
+  | ObsReq o1 l1, ObsReq o2 l2 => Bool.eqb o1 o2 && list_eqb pair_exact_eqb l1 l2
+  | _, _ => false
+  end.
+Definition model_obs (strict : bool) (end_of : N -> ia) (cfg : config) (ops : list op) : list obs :=
+  map obs_of (trace end_of strict cfg [] ops).
+Definition known_visible (end_of : N -> ia) (cfg : config) (ops : list op) : bool :=
+  negb (list_eqb obs_exact_eqb (model_obs true end_of cfg ops) (model_obs false end_of cfg ops)).
+
+(** ---------------------------------------------------------------- the property's vocabulary (Prop level) *)
+
+(** the conditions of the property on a registration *)
+Definition reg_allowed (cfg : config) (r : registration) : Prop :=
+  exists g, lookup (r_gid r) (c_groups cfg) = Some g
+    /\ In (r_peer r) (g_writers g) /\ In (c_local cfg) (g_registries g)
+    /\ (forall sg, In sg (r_segs r) -> s_type sg = type_down) /\ r_verdict r = true.
+
+Definition member (peer : ia) (g : group) : Prop :=
+  peer = g_owner g \/ In peer (g_writers g) \/ In peer (g_readers g) \/ In peer (g_registries g).
+
+(** the conditions of the property on a request *)
+Definition serve_allowed (cfg : config) (q : request) : Prop :=
+  q_gids q <> [] /\
+  forall id, In id (q_gids q) ->
+    exists g, lookup id (c_groups cfg) = Some g /\ member (q_peer q) g
+              /\ In (c_local cfg) (g_registries g).
+
+(** the store associates segment id [s] with group [g] *)
+Definition stored_under (st : store) (s g : N) : Prop :=
+  exists v gs, find s st = Some (v, gs) /\ In g gs.
+
+(** some registration of the history that satisfies the property's conditions
+    registered segment [sg] under group [g] *)
+Definition registered (cfg : config) (ops : list op) (g : N) (sg : segm) : Prop :=
+  exists r, In (OReg r) ops /\ reg_allowed cfg r /\ r_gid r = g /\ In sg (r_segs r).
+
+(** [v] is the newest version of segment [s] registered in the history *)
+Definition newest (cfg : config) (ops : list op) (s : N) (v : Z) : Prop :=
+  (exists g sg, registered cfg ops g sg /\ s_id sg = s /\ s_ver sg = v) /\
+  (forall g sg, registered cfg ops g sg -> s_id sg = s -> (s_ver sg <= v)%Z).
+
+(** what the property requires of an answer [l] to request [q] after history [ops] *)
+Definition exact_answer (end_of : N -> ia) (cfg : config) (ops : list op) (q : request)
+           (l : list (N * Z)) : Prop :=
+  forall s v, In (s, v) l <->
+    (ends_at (q_dst q) (end_of s) = true
+     /\ (exists g sg, In g (q_gids q) /\ registered cfg ops g sg /\ s_id sg = s)
+     /\ newest cfg ops s v).
 
 (** ---------------------------------------------------------------- correspondence cases *)
 Definition table_end (tbl : list (N * ia)) (s : N) : ia :=
@@ -261,17 +321,18 @@ Inductive case :=
 | CHist (ends : list (N * ia)) (cfg : config) (ops : list op) (impl : list obs)
         (tagged : bool).      (* the runner's own classification into the known defect class *)
 
-Definition model_obs (cfg : config) (ops : list op) (ends : list (N * ia)) : list obs :=
-  map obs_of (trace (table_end ends) cfg [] ops).
-
 Definition check (c : case) : N :=
   match c with
   | CHist ends cfg ops impl tagged =>
-    Check.verdict (list_eqb obs_eqb (model_obs cfg ops ends) impl && Bool.eqb (known cfg ops) tagged)
+    Check.verdict (list_eqb obs_eqb (model_obs true (table_end ends) cfg ops) impl
+                   && Bool.eqb (known_visible (table_end ends) cfg ops) tagged)
                   (hist_ok (table_end ends) cfg [] ops impl)
   end.
 
 Definition diag (c : case) : list obs * bool :=
-  match c with CHist ends cfg ops _ _ => (model_obs cfg ops ends, known cfg ops) end.
+  match c with
+  | CHist ends cfg ops _ _ =>
+    (model_obs true (table_end ends) cfg ops, known_visible (table_end ends) cfg ops)
+  end.
 
 End HiddenPath.
